@@ -60,6 +60,7 @@ OP_CLAUSES = {
               ('C08', 'archives_untouched')],
     'load': [], 'dump': [], 'archived': [],
 }
+REJECT_CLAUSES = ['rejected_archive_write_loses_nothing', 'rejected_archive_write_propagates']
 INV = {'no': [], 'inf': [], 'lfu': ['Inv_lfu'], 'lru': ['Inv_lru.refcount', 'Inv_lru.resident', 'Inv_lru.sentinel'],
        'mru': ['Inv_mru.hashable'], 'rr': []}
 INV_ALL = ['Inv_val[mem]', 'Inv_val[A]', 'Inv_val[S]', 'stats>=0']
@@ -107,7 +108,12 @@ def step(state, op, pol, only=None):
     post = WR.Sigma(w, ctx['roles'])
     viol = []
     n = 0
-    names = list(clauses_for(pol, spec['op']))
+    if ctx.get('rejections'):
+        # the archive rejected a write during this step: the properties are stated for archives that accept the values;
+        # what is still claimed is the order of dump and drop (C07) and the representation invariant
+        names = [('C07', c) for c in REJECT_CLAUSES] if spec['op'] == 'call' else []
+    else:
+        names = list(clauses_for(pol, spec['op']))
     names += [('INV', 'inv.' + i) for i in INV_ALL + INV[pol]]
     for (prop, cl) in names:
         if only is not None and cl not in only and prop not in only:
@@ -120,7 +126,9 @@ def step(state, op, pol, only=None):
         if ok is False:
             viol.append({'property': prop, 'clause': cl, 'outcome': outcome, 'value': repr(value)[:200],
                          'pre': WR.snap_repr(pre), 'post': WR.snap_repr(post)})
-    if outcome == 'raise' and not isinstance(value, (WR.UserErr, WR.KeygenErr, TypeError, KeyError, ValueError)):
+    if ctx.get('rejections') and outcome == 'raise' and isinstance(value, WR.RejectErr):
+        pass
+    elif outcome == 'raise' and not isinstance(value, (WR.UserErr, WR.KeygenErr, TypeError, KeyError, ValueError)):
         viol.append({'property': 'C16', 'clause': 'raises.only_listed', 'outcome': outcome, 'value': repr(value)[:200],
                      'pre': WR.snap_repr(pre), 'post': WR.snap_repr(post)})
     nxt = WR.spec_of(state, w, ctx)
@@ -141,12 +149,18 @@ def explore(module, cls, maxsizes=(1, 2), purges=(False, True), universe=3, dept
         maxsizes, purges = (1,), (False,)
     for M in maxsizes:
         for purge in purges:
-            for arch in ('none', 'dict'):
+            archs = ['none', 'dict']
+            if only is None or 'C07' in only or set(only) & set(REJECT_CLAUSES):
+                archs.append('rejecting')       # a dict archive that cannot encode the value of key 0
+            for arch in archs:
                 if purge and arch == 'none':
                     continue
                 res['configs'] += 1
-                init = {'module': module, 'cls': cls, 'maxsize': M, 'purge': purge, 'universe': universe, 'arch0': arch,
+                init = {'module': module, 'cls': cls, 'maxsize': M, 'purge': purge, 'universe': universe,
+                        'arch0': 'dict' if arch == 'rejecting' else arch,
                         'mem': {}, 'A': None if arch == 'none' else {}, 'S': None, 'stats': [0, 0, 0]}
+                if arch == 'rejecting':
+                    init['rejects'] = [0]
                 if pol in ('lru', 'mru'):
                     init['queue'] = []
                 if pol in ('lru', 'lfu'):
